@@ -96,7 +96,7 @@ Inductive kpc :=
 | KWaiting                  (* proxyFrac.Suicide saw Sealing and is in sealWg.Wait() *)
 | KDone (a s : bool).       (* Suicide() went on with Active.Suicide (a) / Sealed.Suicide (s) *)
 
-Record pfrac := mkpf { pf_x : px; pf_g : gpc; pf_k : kpc }.
+Record pfrac := mkxf { xf_x : px; xf_g : gpc; xf_k : kpc }.
 Record pstate := mkp { p_fr : list pfrac; p_fatal : bool }.
 
 Definition gpc_eqb (a b : gpc) : bool :=
@@ -112,10 +112,10 @@ Definition kpc_eqb (a b : kpc) : bool :=
   | _, _ => false
   end.
 Definition pfrac_eqb (a b : pfrac) : bool :=
-  px_eqb (pf_x a) (pf_x b) && gpc_eqb (pf_g a) (pf_g b) && kpc_eqb (pf_k a) (pf_k b).
+  px_eqb (xf_x a) (xf_x b) && gpc_eqb (xf_g a) (xf_g b) && kpc_eqb (xf_k a) (xf_k b).
 
-Definition pf_new := mkpf px_writable GNone KListed.            (* rotate: fractionProvider.newActiveRef *)
-Definition pf_loaded_sealed := mkpf px_sealed GInstalled KListed. (* loader: a *frac.Sealed without a proxy *)
+Definition pf_new := mkxf px_writable GNone KListed.            (* rotate: fractionProvider.newActiveRef *)
+Definition pf_loaded_sealed := mkxf px_sealed GInstalled KListed. (* loader: a *frac.Sealed without a proxy *)
 
 Inductive pev :=
 | PRotate                 (* fm.rotate(): a new proxy, Active & Writable, appended to fm.fracs *)
@@ -129,30 +129,30 @@ Inductive pev :=
 (* the seal goroutine / the Suicide of fraction f performs its next step *)
 Definition fstep (ro_variant : bool) (e : pev) (f : pfrac) : pfrac * bool :=
   match e with
-  | PSealGo _ => (match pf_g f with GNone => mkpf (pf_x f) GStart (pf_k f) | _ => f end, false)
+  | PSealGo _ => (match xf_g f with GNone => mkxf (xf_x f) GStart (xf_k f) | _ => f end, false)
   | PSealEnter _ =>
-      match pf_g f with
+      match xf_g f with
       | GStart =>
-          let '(r, x') := seal_enter ro_variant (pf_x f) in
+          let '(r, x') := seal_enter ro_variant (xf_x f) in
           match fm_seal_on r with
-          | ActGoOn => (mkpf x' GSealing (pf_k f), false)
-          | ActSkip => (mkpf x' GSkipped (pf_k f), false)
+          | ActGoOn => (mkxf x' GSealing (xf_k f), false)
+          | ActSkip => (mkxf x' GSkipped (xf_k f), false)
           | ActFatal => (f, true)
           end
       | _ => (f, false)
       end
-  | PSealSwap _ => (match pf_g f with GSealing => mkpf (seal_swap (pf_x f)) GSwapped (pf_k f) | _ => f end, false)
-  | PSealInstall _ => (match pf_g f with GSwapped => mkpf (pf_x f) GInstalled (pf_k f) | _ => f end, false)
+  | PSealSwap _ => (match xf_g f with GSealing => mkxf (seal_swap (xf_x f)) GSwapped (xf_k f) | _ => f end, false)
+  | PSealInstall _ => (match xf_g f with GSwapped => mkxf (xf_x f) GInstalled (xf_k f) | _ => f end, false)
   | PSuicide _ =>
-      (match pf_k f with
-       | KPushed false => mkpf (pf_x f) (pf_g f) (KDone false true)          (* frac.Sealed.Suicide of the list entry *)
+      (match xf_k f with
+       | KPushed false => mkxf (xf_x f) (xf_g f) (KDone false true)          (* frac.Sealed.Suicide of the list entry *)
        | KPushed true =>
-           let '(x', (a, s, sealing)) := try_set_suicided (pf_x f) in
-           mkpf x' (pf_g f) (if sealing then KWaiting else KDone a s)
+           let '(x', (a, s, sealing)) := try_set_suicided (xf_x f) in
+           mkxf x' (xf_g f) (if sealing then KWaiting else KDone a s)
        | KWaiting =>
-           match pf_g f with
+           match xf_g f with
            | GSealing => f                                                     (* sealWg.Wait() blocks *)
-           | _ => let '(x', (a, s, _)) := try_set_suicided (pf_x f) in mkpf x' (pf_g f) (KDone a s)
+           | _ => let '(x', (a, s, _)) := try_set_suicided (xf_x f) in mkxf x' (xf_g f) (KDone a s)
            end
        | _ => f
        end, false)
@@ -165,11 +165,11 @@ Definition ev_pos (e : pev) : option nat :=
   | _ => None
   end.
 
-Definition k_listed (f : pfrac) : bool := match pf_k f with KListed => true | _ => false end.
+Definition k_listed (f : pfrac) : bool := match xf_k f with KListed => true | _ => false end.
 
 (* shiftFirstFrac: the outsider is the list entry as it is at that moment *)
 Definition push1 (f : pfrac) : pfrac :=
-  mkpf (pf_x f) (pf_g f) (KPushed (negb (gpc_eqb (pf_g f) GInstalled))).
+  mkxf (xf_x f) (xf_g f) (KPushed (negb (gpc_eqb (xf_g f) GInstalled))).
 Fixpoint push_first (k : nat) (l : list pfrac) : list pfrac :=
   match l with
   | [] => []
@@ -215,29 +215,29 @@ Definition p_initial (s : pstate) : bool := forallb pf_initial (p_fr s) && negb 
      the plain sealed fraction); a seal that found the fraction suicided was skipped only for a fraction whose
      Suicide has gone on *)
 Definition pf_ok (f : pfrac) : bool :=
-  let x := pf_x f in
+  let x := xf_x f in
   px_known x &&
-  match pf_g f with
+  match xf_g f with
   | GNone | GStart => px_eqb x px_writable || px_eqb x px_suicided_rw
   | GSealing => px_eqb x px_sealing
   | GSwapped | GInstalled => px_eqb x px_sealed || px_eqb x px_suicided_ro
   | GSkipped => px_eqb x px_suicided_rw
   end &&
-  match pf_k f with
+  match xf_k f with
   | KListed => negb (is_suicided_state false x)
   | KPushed true => negb (is_suicided_state false x)
-  | KPushed false => gpc_eqb (pf_g f) GInstalled && px_eqb x px_sealed
-  | KWaiting => match pf_g f with GSealing | GSwapped | GInstalled => negb (is_suicided_state false x) | _ => false end
+  | KPushed false => gpc_eqb (xf_g f) GInstalled && px_eqb x px_sealed
+  | KWaiting => match xf_g f with GSealing | GSwapped | GInstalled => negb (is_suicided_state false x) | _ => false end
   | KDone a s =>
       xorb a s &&
-      (if a then match pf_g f with GNone | GStart | GSkipped => true | _ => false end
-       else match pf_g f with GSwapped | GInstalled => true | _ => false end) &&
-      (is_suicided_state false x || (gpc_eqb (pf_g f) GInstalled && px_eqb x px_sealed))
+      (if a then match xf_g f with GNone | GStart | GSkipped => true | _ => false end
+       else match xf_g f with GSwapped | GInstalled => true | _ => false end) &&
+      (is_suicided_state false x || (gpc_eqb (xf_g f) GInstalled && px_eqb x px_sealed))
   end &&
-  (negb (gpc_eqb (pf_g f) GSkipped) || kpc_eqb (pf_k f) (KDone true false)).
+  (negb (gpc_eqb (xf_g f) GSkipped) || kpc_eqb (xf_k f) (KDone true false)).
 
 (* the fraction is completely gone for the process: Suicide() went on with the instance owning the files *)
-Definition pf_deleted (f : pfrac) : bool := match pf_k f with KDone _ _ => true | _ => false end.
+Definition pf_deleted (f : pfrac) : bool := match xf_k f with KDone _ _ => true | _ => false end.
 
 (* ------------------------------------------------------------------ agreement with the directory model *)
 
